@@ -12,7 +12,9 @@
      K <flags> <globalshex> <rules> <pathhex>
                                         the same on add_patterns (global_rules globals) ..: IgnoreRules::from_global_patterns
                                         followed by add_patterns
-     flags = <fixed_P17><fixed_P35><fixed_P36>, three characters 0|1 (one character: fixed_P17 only, the others 0)
+     flags = <fixed_P17><fixed_P35><fixed_P36><fixed_P37>, four characters 0|1 (three: fixed_P37 = 0; one character:
+                                        fixed_P17 only, the others 0).  fixed_P37 concerns the walks only (w, t): k / K are
+                                        IgnoreRules::check on a string, which the repair of P37 leaves as it is
      w <flags> <nthreads> <globalshex> <entries> <sched> <rounds>
                                         entries = <d|f><pathhex>[:<contenthex>],... | -   (walkdrv's syntax; children
                                         of a directory are in the order of first appearance)
@@ -106,12 +108,13 @@ let sorted_paths ps =
 let path_of_field f : BinNums.coq_N list list =
   if f = "-" then [] else Stdlib.List.map bytes_of_string (Stdlib.String.split_on_char '/' (unhex f))
 let bool_of_field = function "1" -> true | "0" -> false | x -> failwith ("bool " ^ x)
-(* (fixed_P17, fixed_P35, fixed_P36) *)
+(* (fixed_P17, fixed_P35, fixed_P36, fixed_P37) *)
 let flags_of_field f =
   let b c = match c with '1' -> true | '0' -> false | _ -> failwith ("flags " ^ f) in
   match Stdlib.String.length f with
-  | 1 -> (b f.[0], false, false)
-  | 3 -> (b f.[0], b f.[1], b f.[2])
+  | 1 -> (b f.[0], false, false, false)
+  | 3 -> (b f.[0], b f.[1], b f.[2], false)
+  | 4 -> (b f.[0], b f.[1], b f.[2], b f.[3])
   | _ -> failwith ("flags " ^ f)
 let verdict_of = function
   | "NoMatch" -> Model.NoMatch | "Ignore" -> Model.Ignore | "Whitelist" -> Model.Whitelist
@@ -149,7 +152,7 @@ let answer line =
           (if p.Pattern.p_white then "w:" else "i:") ^ hex_of_bytes p.Pattern.p_glob) ps)
     end
   | "k" :: flags :: rest | "K" :: flags :: rest when Stdlib.List.length rest = 2 || Stdlib.List.length rest = 3 ->
-    let (fixed, f35, f36) = flags_of_field flags in
+    let (fixed, f35, f36, _) = flags_of_field flags in
     let (globals, rules, path) = (match rest with
         | [r; p] -> (None, r, p)
         | [g; r; p] -> (Some (bytes_of_field g), r, p)
@@ -172,7 +175,7 @@ let answer line =
         show_verdict (Model.check_str35 Match.glob_matches fixed f35 r (bytes_of_string s))
     end
   | ["w"; flags; nth; globals; entries; sched; rounds] ->
-    let (fixed, f35, f36) = flags_of_field flags in
+    let (fixed, f35, f36, f37) = flags_of_field flags in
     let nth = nat_of_int (int_of_string nth) in
     let globals = bytes_of_field globals in
     let (ign, ch) = tree_of_entries entries in
@@ -181,18 +184,18 @@ let answer line =
         | [i; k] -> (nat_of_int (int_of_string i), nat_of_int (int_of_string k))
         | _ -> failwith ("sched " ^ it)) (Stdlib.String.split_on_char ',' sched) in
     let gm = Match.glob_matches in
-    let spec = Model.spec_walk gm fixed f35 globals ign ch in
+    let spec = Model.spec_walk gm fixed f35 f37 globals ign ch in
     let fuel = Datatypes.S (Model.dir_count (Model.Dir (ign, ch))) in
-    let serial = Model.serial_walk gm fixed f35 fuel globals ign ch in
-    let c = Trace.par_walk_drained gm fixed f35 nth globals ign ch sched (nat_of_int (int_of_string rounds)) in
+    let serial = Model.serial_walk gm fixed f35 f37 fuel globals ign ch in
+    let c = Trace.par_walk_drained gm fixed f35 f37 nth globals ign ch sched (nat_of_int (int_of_string rounds)) in
     "spec=" ^ sorted_paths spec
     ^ ";serial=" ^ (match serial with Some l -> show_paths l | None -> "OOF")
     ^ ";par=" ^ sorted_paths c.Model.c_out
     ^ ";final=" ^ (if Model.final c then "1" else "0")
     ^ ";wf=" ^ (if Model.wf_tree (Model.Dir (ign, ch)) then "1" else "0")
-    ^ ";panic=" ^ (if Model.walk_panics gm fixed f35 f36 globals ign ch then "1" else "0")
+    ^ ";panic=" ^ (if Model.walk_panics gm fixed f35 f37 f36 globals ign ch then "1" else "0")
   | ["t"; flags; nth; globals; entries; events] ->
-    let (fixed, f35, _) = flags_of_field flags in
+    let (fixed, f35, _, f37) = flags_of_field flags in
     let nthreads = int_of_string nth in
     let globals = bytes_of_field globals in
     let (ign, ch) = tree_of_entries entries in
@@ -206,7 +209,7 @@ let answer line =
         | [th; "push"; p] -> Trace.EPush (th_of th, path_of_field p)
         | [th; "exit"; _] -> Trace.EExit (th_of th)
         | _ -> failwith ("event " ^ it)) (Stdlib.String.split_on_char ',' events) in
-    (match Trace.tv_validate Match.glob_matches fixed f35 (nat_of_int nthreads) globals ign ch evs with
+    (match Trace.tv_validate Match.glob_matches fixed f35 f37 (nat_of_int nthreads) globals ign ch evs with
      | (n, Datatypes.Coq_inl out) -> "ok " ^ string_of_n n ^ " " ^ sorted_paths out
      | (n, Datatypes.Coq_inr e) -> "bad " ^ string_of_n n ^ " " ^ show_error e)
   | _ -> failwith ("bad line: " ^ line)
